@@ -37,6 +37,13 @@
                                        `C05_three_entry_points_agree`, `C05_heteroscedastic_on_arrays`, `C05_batchsize_invariant`
   * "finite whenever some triple has positive distance":  `C05_finite_iff` (reference), `C05_code_score_finite` (code)
   * `logsumexp`'s max-shift:           `C05_logsumexp_shift_immaterial`, `C05_logsumexp_shift`
+  * the budget (Props/C05Regress.lean, Model/DbalBudget.lean): every budget ≥ C(n,3), EQUALITY INCLUDED, gives all triples each once:
+    `C05_all_triples_each_once_when_budget_covers`, `C05_all_triples_each_once_at_budget_equal`, `selectLe_all`; every entry point
+    hands the caller's budget to the kernel: `C05_every_entry_point_honours_budget`; `length_allTriples`
+  * Regression (not a clause): `C05_S7_strict_budget_counterexample` (S7-C05: `<` instead of `≤` at budget = C(n,3) → draws with
+    replacement; witness n = 4, budget = 4, draw [0,0,1,2])
+  * Regression (not a clause): `C05_S5_dropped_budget_counterexample` (S5-C05: homoscedastic wrapper drops max_combos → default 5000;
+    for n = 34 no caller budget yields all 5984 triples)
   * harness-only: "to floating-point accuracy" (IEEE rounding, under/overflow: the wide-dynamic-range cases);
     `-inf` for a plate without any positive-distance triple (`Real.log 0 = 0` in ℝ: the theorem is stated on the sum);
     `distance_factor ≤ 0` on a zero-distance triple (`0 * -inf` = NaN, negative * -inf = +inf in the code; the model is
